@@ -86,7 +86,7 @@ def gen_signature(r):
             dargs.append(name)
             params[name] = builtin(f())
             meta.append(("post", name, tn))
-    for key in r.sample(["a", "b", "c", "k", "zz"], r.choice([0, 0, 1, 2, 3])):
+    for key in r.sample(["a", "b", "c", "k", "k2", "a1", "zz"], r.choice([0, 0, 1, 2, 3])):
         tn, f = r.choice(PARAM_TYPES)
         hd = r.random() < 0.5
         dargs.append(key + ":")
